@@ -25,7 +25,8 @@ RULE = ('Generated: well-formed input files over the built-in sections: a temper
         'omitted; optionally one unknown selector or one unknown key is injected; optionally a composite '
         '"mixin+base" selector or a custom python file is used; a third of the cases run the command-line program '
         'in-process on the file.  The finite table of documented selectors is checked exhaustively in every case '
-        'of the selectors part.  Non-trivial = >=3 non-default keys across >=3 sections; distinct by case hash.')
+        'of the selectors part.  Non-trivial = >=3 non-default keys across >=3 sections; distinct by case hash.'
+        ' A fourth part generates [Observation] / [Binning] / [Instrument] / [Optimizer] / [Fitting] / [Derive] sections (observation files in any row order, all five manual-grid keywords, accurate on/off, SNR instrument, nestle and multinest keys, fit / bounds / mode / factor / prior options on parameters resolved against the model the file builds, unknown names and keys); fill-gas lists include the word NO.')
 ASSUMPTIONS = [
     '"documented" = doc/source/user/taurex/*.rst in the working tree; the selector table is transcribed in this module and each entry is checked to occur in the rst text and to resolve to exactly one discovered class of its family',
     'constructor arguments are observed by wrapping __init__ of the built-in classes from the harness (no repository change); numbers must arrive equal in value (int vs float is not distinguished, the parser produces floats), booleans as bool, comma lists as lists of floats or strings',
